@@ -25,7 +25,7 @@ from lerax.space import Box, Discrete
 from lerax import wrapper as W
 
 from lvc import kit, ir, extract
-from lvc.generic import GenericEnv
+from lvc.generic import GenericEnv, GenericInnerEnv
 from lvc.kit import Ctx, run, sym, tree_eq_named, sand
 
 PROPERTY = "C01"
@@ -45,15 +45,15 @@ F_RESET = "lerax.env.base_env:AbstractEnvLike.reset"
 # ---- wrapper stacks ---------------------------------------------------------------------------
 
 def _box_env(**kw):
-    return GenericEnv(Box(-jnp.ones((2,)), jnp.ones((2,))), **kw)
+    return GenericInnerEnv(Box(-jnp.ones((2,)), jnp.ones((2,))), **kw)
 
 
 def _disc_env(**kw):
-    return GenericEnv(Discrete(3), **kw)
+    return GenericInnerEnv(Discrete(3), **kw)
 
 
 def _bounded_obs_env():
-    return GenericEnv(Box(-jnp.ones((2,)), jnp.ones((2,))), observation_space=Box(-2 * jnp.ones((2,)), 2 * jnp.ones((2,))))
+    return GenericInnerEnv(Box(-jnp.ones((2,)), jnp.ones((2,))), observation_space=Box(-2 * jnp.ones((2,)), 2 * jnp.ones((2,))))
 
 
 STACKS = {
